@@ -98,6 +98,12 @@ class Family:
                     ds = _concrete(rets[0].value)
                     if ds:
                         self.D[(a_, j)] = ds
+        # and one level below d_(0,1,0): a cell two levels finer than the c's, for the scenario with an empty level in between
+        self.E: List[Lin] = []
+        if r + 2 <= 29 and (0, 1) in self.D:
+            rets, raises = children_family(interp, self.D[(0, 1)][0], Lin(r + 2))
+            if len(rets) == 1 and not raises:
+                self.E = _concrete(rets[0].value) or []
         self.ok = True
 
     def generality(self) -> str:
@@ -119,12 +125,15 @@ class Family:
             return self.P[name[1]]
         if name[0] == "c":
             return self.C[name[1]][name[2]]
+        if name[0] == "e":
+            return self.E[name[1]]
         return self.D[(name[1], name[2])][name[3]]
 
     def all_names(self):
         out = [("G",)] + [("P", a) for a in range(len(self.P))]
         out += [("c", a, j) for a in range(len(self.P)) for j in range(len(self.C[a]))]
         out += [("d", a, j, m) for (a, j), ds in self.D.items() for m in range(len(ds))]
+        out += [("e", q) for q in range(len(self.E))]
         return out
 
     def leaves(self, name) -> frozenset:
@@ -136,8 +145,12 @@ class Family:
         if name[0] == "c":
             ds = self.D.get((name[1], name[2]))
             if ds:
-                return frozenset((name[1], name[2], m) for m in range(len(ds)))
+                return frozenset().union(*[self.leaves(("d", name[1], name[2], m)) for m in range(len(ds))])
             return frozenset([(name[1], name[2], -1)])
+        if name[0] == "e":
+            return frozenset([(0, 1, 0, name[1])])
+        if self.E and name[1:] == (0, 1, 0):
+            return frozenset((0, 1, 0, q) for q in range(len(self.E)))
         return frozenset([(name[1], name[2], name[3])])
 
     def canonical(self, names) -> List[tuple]:
@@ -146,6 +159,9 @@ class Family:
         changed = True
         while changed:
             changed = False
+            if self.E and {("e", q) for q in range(len(self.E))} <= have:
+                have = (have - {("e", q) for q in range(len(self.E))}) | {("d", 0, 1, 0)}
+                changed = True
             for (a, j), ds in self.D.items():
                 grp = {("d", a, j, m) for m in range(len(ds))}
                 if grp <= have:
@@ -215,6 +231,10 @@ def scenarios(f: Family) -> List[Tuple[str, List[tuple]]]:
         out.append(("a member replaced by its complete children", [grp0[0]] + [("d", 0, 1, m) for m in range(len(f.D[(0, 1)]))] + grp0[2:]))
         out.append(("a member together with its own complete children, and two of its siblings (overlapping input)",
                     [grp0[1]] + [("d", 0, 1, m) for m in range(len(f.D[(0, 1)]))] + [grp0[0], grp0[2]]))
+    if f.E and nP >= 2:
+        grp1 = [("c", 1, j) for j in range(len(f.C[1]))]
+        out.append(("a complete sibling group and one cell two levels finer elsewhere (no cell on the level in between)", grp1 + [("e", 0)]))
+        out.append(("the same, finer cell first", [("e", len(f.E) - 1)] + grp1))
     return out
 
 
